@@ -386,6 +386,79 @@ func runC06(env *Env) {
 		}
 		in.Close()
 	}
+	// several tokens behind one gateway at the same time (k start events lead into it): every token's arrival is an
+	// activation of its own with its own winner; one event decides all of them, two events at once decide each of
+	// them one way or the other, and nothing is left waiting
+	for v := 0; v < 6 && !rep.Saturated(); v++ {
+		k, both := 2+v%2, v >= 2 && v < 4
+		first := v / 4
+		cs := fmt.Sprintf("%d start events lead into one event-based gateway with 2 alternatives: %d activations undecided at once, then event %d", k, k, first)
+		if both {
+			cs = fmt.Sprintf("%d start events lead into one event-based gateway with 2 alternatives: %d activations undecided at once, then both events at the same moment", k, k)
+		}
+		env.Current(cs)
+		p := &Prog{}
+		for i := 0; i < k; i++ {
+			p.Node("start", fmt.Sprintf("start%d", i))
+		}
+		p.Node("ebg", "EG")
+		p.Node("end", "end")
+		for i := 0; i < k; i++ {
+			p.Flow(fmt.Sprintf("start%d", i), "EG", "")
+		}
+		for i := 0; i < 2; i++ {
+			c := p.Node("catch", fmt.Sprintf("C%d", i))
+			c.Inner = fmt.Sprintf(`<bpmn:signalEventDefinition id="sd%d" signalRef="sig%d"/>`, i, i)
+			p.Node("task", fmt.Sprintf("B%d", i))
+			p.Flow("EG", fmt.Sprintf("C%d", i), "")
+			p.Flow(fmt.Sprintf("C%d", i), fmt.Sprintf("B%d", i), "")
+			p.Flow(fmt.Sprintf("B%d", i), "end", "")
+		}
+		defs, err := ParseDefs(p.XML(`<bpmn:signal id="sig0" name="sig0"/><bpmn:signal id="sig1" name="sig1"/>`))
+		must(err)
+		in, err := StartInst(defs, InstOpt{})
+		must(err)
+		rep.Evaluations++
+		rep.Nontrivial++
+		rep.Count("several_tokens_one_gateway")
+		if !in.WaitUntil(tmoStep, func(l []Ev) bool { return countEv(l, "visit", "C0") >= k && countEv(l, "visit", "C1") >= k }) {
+			rep.Violate("C06-one-winner", cs, "the alternatives' tokens did not arrive at their catch events; log: "+logString(in.Log()))
+			in.Close()
+			continue
+		}
+		time.Sleep(6 * time.Millisecond)
+		if both {
+			var wg sync.WaitGroup
+			for i := 0; i < 2; i++ {
+				wg.Add(1)
+				go func(i int) { defer wg.Done(); in.Signal(fmt.Sprintf("sig%d", i)) }(i)
+			}
+			wg.Wait()
+		} else {
+			in.Signal(fmt.Sprintf("sig%d", first))
+		}
+		in.WaitUntil(tmoStep, func(l []Ev) bool { return countEv(l, "task", "B0")+countEv(l, "task", "B1") >= k })
+		time.Sleep(settle)
+		l := in.Log()
+		b := [2]int{countEv(l, "task", "B0"), countEv(l, "task", "B1")}
+		switch {
+		case b[0]+b[1] != k:
+			rep.Violate("C06-one-winner", cs, fmt.Sprintf("%d activations, %d alternatives continued (B0 %d, B1 %d); log: %s", k, b[0]+b[1], b[0], b[1], logString(l)))
+		case !both && b[first] != k:
+			rep.Violate("C06-one-winner", cs, fmt.Sprintf("only event %d was delivered: B0 requested %d times, B1 %d times; log: %s", first, b[0], b[1], logString(l)))
+		case countEv(l, "determination", "EG") != k:
+			rep.Violate("C06-one-winner", cs, fmt.Sprintf("%d activations, %d determinations; log: %s", k, countEv(l, "determination", "EG"), logString(l)))
+		default:
+			for i := 0; i < 2; i++ {
+				for in.Answer(fmt.Sprintf("B%d", i), 30*time.Millisecond) {
+				}
+			}
+			if !in.WaitCease(tmoStep) {
+				rep.Violate("C06-completes", cs, "every winner answered, the instance did not complete (an alternative was left waiting); log: "+logString(in.Log()))
+			}
+		}
+		in.Close()
+	}
 	// simultaneous delivery: every alternative's token runs the gateway's action transformer at the same
 	// moment (hook VerifEventGatewayRace, build tag verif): exactly one may continue, round after round
 	for _, n := range []int{2, 3} {
